@@ -13,6 +13,7 @@ PROPS = {
     "C01": {
         "builds": ["ark", "min"], "level": "exploration", "design_ref": "DESIGN.md §3 C01",
         "monitor_profile": [("ark", "C01"), ("min", "C01")],
+        "monitor_profile_quick": [("ark", "C01"), ("min", "C01")],
         "technique": "runtime round-trip monitor with a BigUint spec decoder/encoder as referee, over a shadowed element zoo "
                      "(both coset members, projective rescalings via the coordinate hook), registers of random straight-line "
                      "programs, and structured + random 32-byte strings",
@@ -146,6 +147,7 @@ PROPS = {
     "C10": {
         "builds": ["ark", "min"], "level": "exploration", "design_ref": "DESIGN.md §3 C10",
         "monitor_profile": [("ark", "C10"), ("min", "C10")],
+        "monitor_profile_quick": [("ark", "C10"), ("min", "C10")],
         "technique": "runtime reference-model monitor: every operator/method form of Fq, Fr, Fp (both backends, plus the public 32-bit Fr "
                      "backend inside the arkworks build) against BigUint arithmetic on structured limb-pattern zoos",
         "rule": "per field: 24 operator forms (+,-,*,/ x value/&/&mut x binary/assign), inherent add/sub/mul/neg/square/inverse, "
@@ -169,6 +171,7 @@ PROPS = {
                 "Trivial: values 0/1, the empty string." + DISTINCT,
         "text": "Integer-model monitor over all conversions; the minimal build covers the inherent subset on the fiat backend.",
         "note": "FromStr is specified as digits -> integer mod p, anything else Err (ark-ff behaviour); Display of zero may be empty.",
+        "monitor_profile": [("ark", "C11"), ("min", "C11")],
         # thorough: Miri over the one `unsafe` of the crate (from_utf8_unchecked in the Debug impls)
         "miri": [("ark", "debug", 8, 0), ("min", "debug", 8, 0)],
     },
